@@ -185,8 +185,8 @@ pub fn array_product(ex: &Ex, space: &str, slots: &[Item], arity: usize, offer: 
 pub fn wide_maps(ex: &Ex, space: &str, extras: &dyn Fn(usize) -> (Item, Item), typed: &[(Item, Item)], faults: &[(Item, Item)], offer: &(dyn Fn(&[u8], &mut Local) + Sync)) {
     let sizes: Vec<usize> = match ex.scale {
         Scale::Small => vec![17],
-        Scale::Quick => vec![17, 40],
-        Scale::Thorough => vec![16, 17, 33, 40, 100, 300],
+        Scale::Quick => vec![9, 17, 33, 65],
+        Scale::Thorough => vec![8, 9, 16, 17, 32, 33, 64, 65, 100, 129, 257, 300],
     };
     ex.bound(space, "wide_map_sizes", json!(sizes));
     let mut l = Local::default();
